@@ -898,8 +898,9 @@ impl BuiltInFunction {
                     Primitive::BigInt(i128) => Primitive::BigInt(*i128),
                     Primitive::Byte(u8) => Primitive::BigInt(*u8 as i128),
                     Primitive::Float(f64) => {
-                        // 2^127 is the first magnitude that does not fit an i128
-                        if !f64.is_finite() || f64.abs() >= 170141183460469231731687303715884105728.0 {
+                        // an i128 holds -2^127 ..= 2^127 - 1
+                        const LIMIT: f64 = 170141183460469231731687303715884105728.0;
+                        if !f64.is_finite() || *f64 >= LIMIT || *f64 < -LIMIT {
                             bail!("`{f64}` cannot be made into a bigint")
                         }
                         Primitive::BigInt(*f64 as i128)
